@@ -53,7 +53,7 @@ CHECKS = {
     ),
     "C08": (
         "exhaustive tag-universe grid + Hypothesis specs/compressed tag sets against a rule predicate over a packaging-decided interpreter grid",
-        "43 requires_python shapes (incl. upper-bound-first spellings, unions of two and of three or more ranges one branch of which ends exactly on a tag's X.Y) x 5 implementation/gil settings x every single (python, abi) tag of the stated universe (170 python tags x ~14 ABIs incl. flag combinations m/d/u/t/td, prefix look-alikes such as cp31/cp312, pypy/pyston ABIs) decided exhaustively, plus generated requires_python texts with compressed tag sets; verdict and the first three score components must equal the statement's rule evaluated on the dense interpreter grid X.Y.Z (Z<=40), and wheel_compatibility() on the corresponding file name (with and without a build tag) must return what compatibility() returns.",
+        "45 requires_python shapes (incl. upper-bound-first spellings, unions of two and of three or more ranges one branch of which ends exactly on a tag's X.Y) x 5 implementation/gil settings x every single (python, abi) tag of the stated universe (170 python tags x ~14 ABIs incl. flag combinations m/d/u/t/td, prefix look-alikes such as cp31/cp312, pypy/pyston ABIs) decided exhaustively, plus generated requires_python texts with compressed tag sets; verdict and the first three score components must equal the statement's rule evaluated on the dense interpreter grid X.Y.Z (Z<=40), and wheel_compatibility() on the corresponding file name (with and without a build tag) must return what compatibility() returns.",
         "Which interpreters requires_python admits is decided by packaging.SpecifierSet, not by dep-logic; specs whose answer depends on pre-releases of the next series (interval reading vs. final interpreters) and empty specs refused by from_spec are skipped and counted.",
         "DESIGN.md §5 C08",
     ),
@@ -65,7 +65,7 @@ CHECKS = {
     ),
     "C10": (
         "Hypothesis rule-based state machine over parse/&/|/reparse/variant histories; warm-vs-cold differential oracle, fresh-interpreter cross-check",
-        "Three layers. (1) Rule-based state machine: histories of up to 30 (quick) / 50 (thorough) operations parse / & / | / reparse / variant / permuted over per-history atom families (35 base atoms x 4 spellings incl. epoch literals and <V / >V pairs, chosen so that cache keys collide); every step is a probe whose warm observation (text, class, truth table, is_any/is_empty) must equal - and whose warm result object must be == and hash like - the cold recomputation of its recipe with every cache found in dep_logic (module level and on methods) cleared and fresh objects; an operation that raises is an observation like any other (raises when run first, returns a marker after history = violation). (2) Exhaustive small scope: for each atom family every history of ONE binary operation x every probe `x op y` (in both spellings of the literals), `(x op y) op z`. (3) Fresh interpreters: ~2 600 single parse_marker calls per family evaluated in new processes that differ only in PYTHONHASHSEED must agree; sample probes of (1) are also recomputed in a new process.",
+        "Three layers. (1) Rule-based state machine: histories of up to 30 (quick) / 50 (thorough) operations parse / & / | / reparse / variant / permuted over per-history atom families (37 base atoms x 4 spellings incl. epoch literals and <V / >V pairs, chosen so that cache keys collide); every step is a probe whose warm observation (text, class, truth table, is_any/is_empty) must equal - and whose warm result object must be == and hash like - the cold recomputation of its recipe with every cache found in dep_logic (module level and on methods) cleared and fresh objects; an operation that raises is an observation like any other (raises when run first, returns a marker after history = violation). (2) Exhaustive small scope: for each atom family every history of ONE binary operation x every probe `x op y` (in both spellings of the literals), `(x op y) op z`. (3) Fresh interpreters: ~2 600 single parse_marker calls per family evaluated in new processes that differ only in PYTHONHASHSEED must agree; sample probes of (1) are also recomputed in a new process.",
         "Cold = all functools caches found in dep_logic cleared; single thread; histories bounded; layers (1)-(2) run under PYTHONHASHSEED=0.",
         "DESIGN.md §5 C10",
     ),
@@ -101,7 +101,7 @@ CHECKS = {
     ),
     "C16": (
         "exhaustive pairs over a configuration grid + Hypothesis requires_python pairs; relational (monotonicity / nesting / compare laws) oracle",
-        "3360 EnvSpecs (28 requires_python x 30 platforms x 4 implementations): all 11.3M ordered pairs for the compare() relations, all same-(platform, implementation) pairs for wheel monotonicity over 176 wheels, all same-family platform release pairs for tag nesting; generated requires_python pairs on top.",
+        "3600 EnvSpecs (30 requires_python x 30 platforms x 4 implementations): all 13M ordered pairs for the compare() relations, all same-(platform, implementation) pairs for wheel monotonicity over 176 wheels, all same-family platform release pairs for tag nesting; generated requires_python pairs on top.",
         "Subset of requires_python decided with packaging on final, sub-micro and pre-release probe points; documented platform families only.",
         "DESIGN.md §5 C16",
     ),
